@@ -57,11 +57,18 @@ impl Sock {
         }
     }
     /// next queued datagram / frame, if any (never waits)
-    fn try_next(&mut self) -> Option<Vec<u8>> {
+    fn try_next(&mut self, only_from: Option<SocketAddr>) -> Option<Vec<u8>> {
         match self {
             Sock::Udp(s) => {
                 let mut buf = [0u8; 2048];
-                s.try_recv_from(&mut buf).ok().map(|(n, _)| buf[..n].to_vec())
+                loop {
+                    match s.try_recv_from(&mut buf) {
+                        // only what the agent under test sent (a reused port may see strays from other processes)
+                        Ok((n, from)) if Some(from) == only_from => return Some(buf[..n].to_vec()),
+                        Ok(_) => continue,
+                        Err(_) => return None,
+                    }
+                }
             }
             Sock::Tcp(s, acc) => {
                 let mut buf = [0u8; 4096];
@@ -260,13 +267,15 @@ impl World {
         let mut replies = HashMap::new();
         for n in ["P", "X"] {
             loop {
-                let Some(pkt) = self.socks.get_mut(n).unwrap().try_next() else { break };
+                let agent = Some(self.agent_addr);
+                let Some(pkt) = self.socks.get_mut(n).unwrap().try_next(agent) else { break };
                 let buf = &pkt[..];
                 let len = pkt.len();
                 let problems = self.check_agent_wire(buf, n);
                 self.wire_checked += 1;
                 if !problems.is_empty() && self.wire_problems.len() < 20 {
-                    self.wire_problems.push(json!({"to": n, "len": len, "problems": problems}));
+                    let head: String = buf.iter().take(48).map(|b| format!("{b:02x}")).collect();
+                    self.wire_problems.push(json!({"to": n, "len": len, "problems": problems, "head": head}));
                 }
                 let Ok(d) = StunMessage::decode(&buf[..len]) else { continue };
                 match d.class {
@@ -905,7 +914,12 @@ fn run_group(edges: &[Value], out: &mut Vec<Value>, rng: &mut Rng, stats: &mut B
         }
         if inert {
             let after = c.project();
-            let changed = diff_fields(&before, &after);
+            let mut changed = diff_fields(&before, &after);
+            if rule == "EXT" {
+                // the model does not track which socket is published for the selected pair (an authenticated
+                // request on another TCP connection republishes it); it only matters for the property's rules
+                changed.retain(|f| f != "selsock");
+            }
             if !changed.is_empty() {
                 // the fields the rule speaks about
                 let governed: &[&str] = match rule.as_str() {
